@@ -200,9 +200,13 @@ pub(super) fn derive_schema(input: TokenStream) -> syn::Result<TokenStream> {
                     }
 
                     if field_attrs.serde.flatten {
+                        /* `Option<Inner>`: serde writes, and needs, none of the properties of a `None` */
+                        let is_option = inner_Option(ty).is_some();
                         properties.push(quote! {
-                            for (property_name, property_schema, required) in #property_schema.into_properties() {
-                                if required {
+                            for (property_name, property_schema, required) in
+                                ::ohkami::openapi::schema::RawSchema::from(#property_schema).into_properties()
+                            {
+                                if required && !#is_option {
                                     schema = schema.property(property_name, property_schema);
                                 } else {
                                     schema = schema.optional(property_name, property_schema);
